@@ -56,12 +56,14 @@ def runOracle (line : String) : String :=
   if case_.isEmpty then "ok" else
   let kind := case_.front
   let rest := (case_.drop 1).toString
-  let _ := cfg
   match kind with
   | 'D' => oracleLookup rest real
   | 'N' => oracleEncodeCs rest real
   | 'H' => oracleHigh rest real
   | 'Y' => oracleGrey rest real
-  | _ => "ok"
+  | _ =>
+    (Values.oracle kind cfg rest real <|> Canvas.oracle kind cfg rest real <|> Input.oracle kind cfg rest real
+      <|> Markup.oracle kind cfg rest real <|> Strings.oracle kind cfg rest real
+      <|> Screen.oracle kind cfg rest real).getD "ok"
 
 end Tpp.Driver
